@@ -883,6 +883,11 @@ def _segments_of(interp, x, issues, what, lineno):
 def csr_array(interp, args, kwargs, lineno):
     from .interp import ASparse
     ctx = interp.ctx
+    if args and isinstance(args[0], (tuple, list)) and len(args[0]) == 2 and all(isinstance(x, Rat) for x in args[0]):
+        return ASparse([], tuple(args[0]), [])            # csr_array((n, m)): the empty n x m matrix
+    if args and is_arraylike(args[0]) and snap(args[0]).ndim == 1 and snap(args[0]).shape[0].is_const() and snap(args[0]).shape[0].as_int() == 2 and len(args) == 1 and not kwargs:
+        a0 = snap(args[0])
+        return ASparse([], (a0.at((ZERO,)), a0.at((ONE,))), [])
     if not args or not isinstance(args[0], tuple) or len(args[0]) != 2 or not isinstance(args[0][1], tuple):
         raise AnalysisError("csr_array called in an unsupported form")
     vals, (rows, cols) = args[0]
